@@ -1,0 +1,7 @@
+//go:build !verif
+
+package kcache
+
+// verifTrace is the verification hook; it does nothing unless the package is
+// built with the "verif" build tag (see verif_hooks.go).
+func verifTrace(actor interface{}, event string, args ...interface{}) {}
